@@ -246,6 +246,12 @@ def sorted_symbolic(eng, args, kw, line):
         eng.run.pop()
     le = eng.as_bool(eng.order(ast.GtE() if reverse is True else ast.LtE(), ki, kj, line))
     eq = eng.as_bool(eng.eq(ki, kj))
+    if eng.is_fp(ki):
+        # IEEE keys: the result is only known to be ordered when no key is NaN (comparisons with NaN are all false,
+        # the outcome of the sort is then unspecified beyond being a permutation)
+        nonan = z3.ForAll([i], z3.Implies(inr(i), z3.Not(z3.fpIsNaN(ki.t))))
+        le = z3.Implies(nonan, le)
+        eq = z3.And(nonan, eq)
     eng.run.assume(z3.ForAll([i, j], z3.Implies(z3.And(inr(i), inr(j), i < j), le)), silent=True)
     # stability
     eng.run.assume(z3.ForAll([i, j], z3.Implies(z3.And(inr(i), inr(j), i < j, eq), perm[i] < perm[j])), silent=True)
